@@ -48,6 +48,9 @@ func exec(c px.Context, op string, args []sx.Sexp) core.Result {
 	if op == "cdesc" {
 		return execCdesc(c, args)
 	}
+	if op == "tassert" {
+		return execTassert(c, args)
+	}
 	if op == "cassert" {
 		return execCassert(c, args)
 	}
